@@ -21,7 +21,10 @@ import experiment.model.frontends.flowir as flowir_mod
 
 FlowIR = flowir_mod.FlowIR
 F = 'python/experiment/model/frontends/flowir.py'
-PLATFORMS = [FlowIR.LabelDefault, 'plat']
+# 'implicit' is a platform that exists only because variables were set for it (FlowIR.discover_platforms lists it, the
+# document's `platforms` field does not): configurations can be queried -- and cached -- for it all the same
+DECLARED = [FlowIR.LabelDefault, 'plat']
+PLATFORMS = DECLARED + ['implicit']
 COMPS = [(0, 'comp'), (0, 'a+b'), (1, 'comp')]
 STAGES = [0, 1]
 HELPERS = ['get_component', '_get_component_variables_ref', 'invalidate_cache_for_component', 'set_component_variable',
@@ -44,7 +47,7 @@ def make_doc(c):
     comps = [comp(s, n) for (s, n) in COMPS]
     variables = {p: {FlowIR.LabelGlobal: {'g': 'glob.%s' % p},
                      FlowIR.LabelStages: {s: {'sv': 'stagevar.%s.%s' % (p, s)} for s in STAGES}} for p in PLATFORMS}
-    doc = {FlowIR.FieldComponents: comps, FlowIR.FieldVariables: variables, FlowIR.FieldPlatforms: list(PLATFORMS)}
+    doc = {FlowIR.FieldComponents: comps, FlowIR.FieldVariables: variables, FlowIR.FieldPlatforms: list(DECLARED)}
     return doc, {cid: cm for cid, cm in zip(COMPS, comps)}
 
 
@@ -399,6 +402,7 @@ class RegexKeyAdequacy(Lemma):
         obs = []
         sites = self.sites()
         self.detail = []
+        verdicts = []
         for i, call in enumerate(sites):
             arg = call.args[0]
             ok = False
@@ -410,11 +414,12 @@ class RegexKeyAdequacy(Lemma):
                 escaped = isinstance(name_arg, ast.Call) and ast.unparse(name_arg.func) == 're.escape'
                 ok = fmt.startswith('component:.*:stage%s:') and fmt.endswith('%s') and escaped
                 self.detail.append({"site": i, "line": call.lineno, "pattern": why, "adequate": ok})
-                obs.append(('component-pattern-site%d-name-is-escaped' % len(obs), ok))
+                verdicts.append(ok)
             else:
                 # another shape (not the per-component pattern): decided by the mutator obligations only
                 self.detail.append({"site": i, "line": call.lineno, "pattern": why, "adequate": None})
-        obs.append(('three-component-invalidation-sites-found', len(obs) >= 3))
+        # (no such site at all is fine: then only the mutator obligations above carry the property)
+        obs.append(('every-per-component-regex-site-escapes-the-name', all(verdicts)))
         return obs
 
     def replay(self, model):
